@@ -165,6 +165,7 @@ def drive(ctx, handler, parsers, module_isoparse, rng, entry, form, text, kinds)
 
 
 def run(ctx):
+    _repo_tests(ctx)
     if not iso_ref.selftest():
         ctx.inconclusive_because('iso_ref self-test failed')
         return
@@ -241,6 +242,13 @@ def directed(ctx, handler, parsers, P):
         else:
             ctx.violation('sep-constructor-accepted', {'sep': sep}, 'isoparser(sep=%r) accepted' % (sep,))
     handler.current = None
+
+
+def _repo_tests(ctx):
+    # thorough tier: the repository's own tests as one more workload under the same monitors
+    if ctx.tier == 'thorough' and ctx.shard == 0:
+        from vf import repo_tests
+        repo_tests.run_under_monitors(ctx, ['iso'], 'C20')
 
 
 def floors(agg, tier):
